@@ -7,6 +7,14 @@ CHECKS = {
    technique="stateless deviation-bounded exploration of read schedules (all chunkings for short inputs) over bounded-exhaustive inputs, on the real library; slice run as reference",
    text="For every enumerated input (all token sequences up to k per format, seed corpus and its single-edit neighbourhood, all byte strings <= 2) and every read schedule within the deviation bound (every chunking for short inputs), translate_reader gives the verdict and bytes of translate_slice. Exhaustive within the stated bounds; coverage counts are in the evidence.",
    note="Trusted: the harness's SchedReader (never returns Interrupted / premature EOF), catch_unwind isolation, the explanation tests of the four known-finding classes in KNOWN_FINDINGS.txt (each recomputed per case). Inputs beyond the alphabets/bounds are not covered."),
+ "C09": dict(cat="model_checking", design="4.9",
+   technique="explicit-state BFS to fixpoint over operation programs on the real rewindable input handle (canonical keys read through a hook, validated by probe suffixes) + deviation-bounded schedule exploration of detection over bounded-exhaustive inputs",
+   text="(A) every reachable state of the input handle for data sizes 0..n under 5 source answer patterns, every borrow program up to the op bound from each state, both ways of taking ownership from each state, checked against a byte-string+offset reference model; (B) for every corpus input and every read schedule within the deviation bound: detection never errs, undetected inputs fail with exactly 'unable to detect input format', detected inputs behave exactly (verdict, bytes, error text) like the explicit run, slice and reader detect the same format for translatable inputs.",
+   note="Trusted: hook HandleProbe only forwards to the private Handle/Ref/CaptureReader API; explicit-format runs are schedule-independent (checked by C02), so two fixed policies serve as explicit references; known-finding classes are recomputed per case."),
+ "C12": dict(cat="fault_enumeration", design="4.12",
+   technique="exhaustive fault-point enumeration on the real library: reader fails at every byte offset, writer fails at every output byte, deviation-bounded short-write and read-schedule exploration, flush failure",
+   text="For every corpus input, source selection and target: a reader failing at EVERY offset k (including in place of EOF) yields Err with the reader's text and only complete fault-free documents before it; a writer failing at EVERY k yields Err with accepted bytes a prefix of the fault-free output; every short-write schedule within the bound yields exactly the fault-free output; flush errors are forwarded.",
+   note="Fault model as in the property: once failing, a reader/writer keeps failing; a reader that already answered EOF stays at EOF. Document framing of partial output is decided by the harness's own readers."),
 }
 
 NOT_YET = "check not built yet (planned in DESIGN.md section 4); not claimed until registered under checks"
